@@ -2,8 +2,8 @@
 Line protocol for `Model/CounterDescriptors.lean`.
   tok   ::= (i x<value>) | (s x<value>) | (n <int>) | num | url | comma | other
   dv <descriptor> (tok …)                 → <desc with that field only> | none | err:IndexError
-  rule ((<descriptor> (tok …)) …)         → <desc> | ignored | err:IndexError      (declarations in source order;
-                                            unknown descriptor names are dropped)
+  rule ((<descriptor> (tok …)) …)         → <desc> | ignored | err:IndexError      (declarations in source order
+                                            through `preprocessDescriptors`, then `buildRule`)
   csname (tok …) <bool:decimal known> <bool:disc known> → x<name> | none
 -/
 import WpModel.Model.Wire
@@ -23,29 +23,6 @@ def tok? : Sx → Option Tok
   | .atom "other" => some .other
   | _ => none
 
-/-- `some none`: invalid value; `none` (outer): unknown descriptor. -/
-def validate (name : String) (toks : List Tok) : Option (Except DErr (Option Decl)) :=
-  match name with
-  | "system" => some ((system toks).map (·.map .system))
-  | "negative" => some (.ok ((negative toks).map .negative))
-  | "prefix" => some (.ok ((prefixSuffix toks).map .pfx))
-  | "suffix" => some (.ok ((prefixSuffix toks).map .sfx))
-  | "range" => some (.ok ((range toks).map .range))
-  | "pad" => some (.ok ((pad toks).map .pad))
-  | "fallback" => some (.ok ((fallback toks).map .fallback))
-  | "symbols" => some (.ok ((symbols toks).map .symbols))
-  | "additive-symbols" => some (.ok ((additiveSymbols toks).map .additive))
-  | _ => none
-
-def collect : List (String × List Tok) → List Decl → Except DErr (List Decl)
-  | [], acc => .ok acc
-  | (n, toks) :: rest, acc =>
-    match validate n toks with
-    | none => collect rest acc
-    | some (.error e) => .error e
-    | some (.ok none) => collect rest acc
-    | some (.ok (some d)) => collect rest (acc ++ [d])
-
 def handle (cmd : String) (args : List Sx) : Option String :=
   match cmd, args with
   | "dv", [.atom name, toks] => do
@@ -59,7 +36,7 @@ def handle (cmd : String) (args : List Sx) : Option String :=
     let decls ← listOf (fun
       | .list [.atom n, toks] => do pure (n, ← listOf tok? toks)
       | _ => none) decls
-    match collect decls [] with
+    match preprocessDescriptors decls [] with
     | .error _ => pure "err:IndexError"
     | .ok ds => match buildRule ds with
       | none => pure "ignored"
